@@ -209,6 +209,29 @@ struct SlackGuard {
 // path ("zq.zq.<bs>") whose first `lead` elements were consumed with mpt_path_next, i.e. path.off > 0 (lead is derived
 // from values the case has drawn already, no draw of its own)
 static metatype *openView(Ctx &c, const std::string &bs, char sep, unsigned lead) {
+  // lead == 2: the base path is handed over in the length-linked (SepBinary) format, built element by element through
+  // mpt_path_addchar/mpt_path_valid/mpt_path_add as the parsers build theirs; mpt_path_add cannot start with an empty
+  // element and stores lengths in one byte, such bases stay with the text form
+  if (lead == 2) {
+    Key els = split(bs, sep);
+    bool ok = !els[0].empty();
+    for (auto &e : els) if (e.size() > 255) ok = false;
+    if (ok) {
+      struct Owner { CObj<path> p; ~Owner() { mpt_path_fini(p); } } o;
+      path *bp = o.p;
+      bp->sep = '.';
+      bp->flags = path::SepBinary;
+      for (auto &e : els) {
+        for (char ch : e) { int r = mpt_path_addchar(bp, ch); VP_CHECK(c, r >= 0, "addchar-refused", "view base: mpt_path_addchar refused (%d)", r); mpt_path_valid(bp); }
+        int valid = mpt_path_valid(bp);
+        VP_CHECK(c, valid == (int)e.size(), "valid-count", "view base: mpt_path_valid reports %d pending bytes, %zu were added", valid, e.size());
+        int r = mpt_path_add(bp, valid);
+        VP_CHECK(c, r >= 0, "add-refused", "view base: mpt_path_add(%d) refused (%d)", valid, r);
+      }
+      c.label("view:binary-base");
+      return mpt_config_global(bp);  // copies what it needs
+    }
+  }
   std::string full;
   for (unsigned i = 0; i < lead; i++) { full += "zq"; full += sep; }
   full += bs;
@@ -291,7 +314,7 @@ static bool readKey(Ctx &c, Store &s, const Key &k, unsigned route, std::string 
       std::string bs = join(k, bsep, 0, n), rs = join(k, rsep, n);
       CObj<path> rp;
       unsigned lead = (unsigned)((k.size() + n + ps.size()) % 3);
-      how = "view(" + std::to_string(n) + " elements" + (lead ? ", from a path remainder" : "") + ")";
+      how = "view(" + std::to_string(n) + " elements" + (lead == 2 ? ", binary-format base or path remainder" : lead ? ", from a path remainder" : "") + ")";
       // a view creates nothing until something is assigned through it
       metatype *v = openView(c, bs, bsep, lead);
       VP_CHECK(c, v, "view-null", "mpt_config_global(%s) returned NULL", show(Key(k.begin(), k.begin() + n)).c_str());
@@ -418,7 +441,7 @@ static void step(Ctx &c, Store &s, std::vector<Key> &pool) {
       bs = join(k, sep, 0, n);
       rs = join(k, sep, n);
       unsigned lead = (unsigned)((k.size() + n + ps.size()) % 3);
-      if (lead) route = "view (from a path remainder)";
+      if (lead) route = lead == 2 ? "view (binary-format base or path remainder)" : "view (from a path remainder)";
       view = openView(c, bs, sep, lead);
       VP_CHECK(c, view, "view-null", "mpt_config_global returned NULL");
       int cr = mvt(view)->convert((convertable *)view, TypeConfigPtr, &target);
@@ -655,9 +678,17 @@ static void run_paths(Ctx &c) {
   for (size_t i = 0; i < n; i++) k.push_back(drawElement(c, 8));
   std::string s = join(k, sep);
   k = split(s, sep);
+  // a third of the paths uses a separator from the upper half of the byte range / the last 7-bit code instead (derived from
+  // the path drawn, no draw of its own): the separator is a `char`, the path bytes are read through char and uint8_t pointers
+  if ((k.size() + s.size()) % 3 == 0) {
+    static const unsigned char kHigh[] = {0x7f, 0x80, 0xa7, 0xb7, 0xff};
+    sep = (char)kHigh[(k.size() * 3 + s.size()) % 5];
+    s = join(k, sep);
+    c.label("separator:high-byte");
+  }
   bool longel = false, emptyel = false;
   for (auto &e : k) { if (e.size() >= 255) longel = true; if (e.empty()) emptyel = true; }
-  c.logf("  path %s sep '%c' (%zu bytes)", show(k).c_str(), sep, s.size());
+  c.logf("  path %s sep 0x%02x (%zu bytes)", show(k).c_str(), (unsigned)(unsigned char)sep, s.size());
 
   // (a) set + walk, with the terminating zero or an explicit length in front of an assignment character
   {
